@@ -244,6 +244,7 @@ def compileExpr (env : CEnv) : CExpr → Except String CE
   | .post _ _ _ => .error "hybrid: use CompileH"
   | .call _ _ _ _ => .error "hybrid: use CompileH"
   | .stmtexpr _ _ _ => .error "hybrid: use CompileH"
+  | .seqexpr _ _ _ _ _ => .error "hybrid: use CompileH"
 def compileArgs (env : CEnv) : List CExpr → List CT → Except String (List ILPure)
   | [], _ => .ok []
   | _ :: _, [] => .error "macro arity"
@@ -401,6 +402,7 @@ def compileStmt (env : CEnv) (st : TSt) : CStmt → Except String (ILEffect × T
       .ok (.seqn [.setl "jump_flag" .btrue, .setl "jump_target" ta.il], st)
   | .exprstmt _ => .error "hybrid: use CompileH"
   | .ret _ => .error "hybrid: use CompileH"
+  | .vcall _ _ _ _ => .error "hybrid: use CompileH"
   | .skip w =>
       if w == "cancel_slot;" then .ok (.nop, st)
       else if w == "STORE_SLOT_CANCELLED(pkt, slot);" then
